@@ -42,3 +42,4 @@ CFG = {'level': 'exploration',
                  'a hang is only reported when the single-case replay also exceeds its cap (driver)']}
 CFG['level_text'] += " The four lexer messages are anchored: the position must be at the '/*', the newline, the unexpected character, or the opening quote of the unterminated string they name, and is never absent."
 CFG['level_text'] += ' What a top-level `module X` line names is read from the syntax-only tree by the harness itself; when that is a plain import path the strict parser must report exactly it.'
+CFG['level_text'] += " The message 'expected newline after closing paren' is anchored too: its position lies on the (logical) line of a closing parenthesis, behind it and a further token."
